@@ -12,8 +12,12 @@ snapshot; the three `pinned_…` theorems are the Lean counter-witnesses of the 
 repaired (the same inputs are corpus cases replayed on the real code on every run).
 -/
 import Cascette.Proofs.Retry
+import Cascette.Proofs.RetryTie
+import Cascette.Proofs.RetryExt
 namespace Cascette.Props.C14
 open Cascette.Model.Retry Cascette.Spec.Retry Cascette.Proofs.Retry
+open Cascette.Model.RetryOps Cascette.Model.RetryEnv Cascette.Model.RetryClock
+open Cascette.Proofs.RetryTie Cascette.Proofs.RetryExt
 
 /-- the backoff value in force at the k-th retry under policy `p` (current code) -/
 abbrev backoffSeq (scale : Nat → Option Nat) (p : Policy) (k : Nat) : Nat :=
@@ -309,6 +313,141 @@ theorem cdn_at_most_four_requests (A : Arith) (jit : Nat → Nat → Nat) (outs 
     (execute A defaultPolicy jit outs).calls ≤ 4 :=
   attempts_le_max_plus_one A defaultPolicy jit outs
 
+/-! ### extension 1: the Rust text itself (translator leg, Generated/RetrySrc + Proofs/RetryTie)
+
+`genLoop shape (pieces ops mul draw p)` is `RetryPolicy::execute` assembled ONLY from what
+lib/rs2lean_retry.py reads in retry.rs on every run: the arms of the `match` in source order (Rust's
+first-match rule), the guard `!e.should_retry() || attempt >= self.max_attempts`, the statements of
+the retry arm in source order, the `if let` that prefers the hint, the jitter block, the f64
+expression with its clamps in source order, for EVERY f64 arithmetic `ops`. -/
+
+/-- The loop read from the source is the model the theorems above are about. -/
+theorem source_execute_is_model {F : Type} (ops : Ops F) (mul : F) (draw : Nat → F) (p : Policy)
+    (outs : List Outcome) :
+    genLoop shape (pieces ops mul draw p) p.maxAttempts shape.attemptInit
+        (Cascette.Generated.RetrySrc.first_backoff p.initialBackoff p.maxBackoff) outs =
+      execute (Arith.fixed (scaleOf ops mul p)) p (jitOf ops draw) outs :=
+  gen_execute_eq_model ops mul draw p outs
+
+/-- Hence the property holds of the loop read from the source, whatever the f64 arithmetic does
+(IEEE, exact, or rejecting every value): no panic, at most `max_attempts + 1` attempts and
+`max_attempts` sleeps, the attempt count of the specification, and every sleep is the hint or the
+clamped backoff sequence (+ jitter). -/
+theorem source_execute_safe {F : Type} (ops : Ops F) (mul : F) (draw : Nat → F) (p : Policy)
+    (outs : List Outcome) :
+    let t := genLoop shape (pieces ops mul draw p) p.maxAttempts shape.attemptInit
+        (Cascette.Generated.RetrySrc.first_backoff p.initialBackoff p.maxBackoff) outs
+    t.result ≠ .panic ∧ t.calls ≤ p.maxAttempts + 1 ∧ t.delays.length ≤ p.maxAttempts ∧
+    t.calls = attempts p.maxAttempts (outs.map Outcome.cls) ∧
+    ∀ i d, t.delays[i]? = some d → ∃ e, outs[i]? = some (.err e) ∧ e.shouldRetry = true ∧
+      d = jittered p (jitOf ops draw) (i + 1)
+            (baseDelay e.retryAfterHint (backoffSeq (scaleOf ops mul p) p i)) ∧
+      backoffSeq (scaleOf ops mul p) p i ≤ p.maxBackoff := by
+  intro t
+  have ht : t = execute (Arith.fixed (scaleOf ops mul p)) p (jitOf ops draw) outs :=
+    gen_execute_eq_model ops mul draw p outs
+  rw [ht]
+  refine ⟨no_panic _ _ _ _, attempts_le_max_plus_one _ _ _ _, sleeps_le_max_attempts _ _ _ _,
+    attempts_eq_spec _ _ _ _, fun i d h => ?_⟩
+  obtain ⟨e, h1, h2, _, h4⟩ := delay_is_hint_or_backoff _ p _ outs i d h
+  exact ⟨e, h1, h2, h4, backoff_le_max _ p i⟩
+
+/-! ### extension 2: "an exponentially growing delay" -/
+
+/-- With an exact integer multiplier `m ≥ 1` (2.0 by default) the backoff in force at the k-th
+retry is `min(initial, max) · m^k`, cut at `max_backoff`: it grows exponentially until it reaches
+the maximum and stays there. -/
+theorem backoff_exponential (p : Policy) (m : Nat) (hm : 1 ≤ m) (k : Nat) :
+    backoffSeq (fun b => some (m * b)) p k =
+      min (min p.initialBackoff p.maxBackoff * m ^ k) p.maxBackoff := by
+  have key : ∀ (k b : Nat), b ≤ p.maxBackoff →
+      backoffAt (nextBackoff (fun b => some (m * b)) p) b k = min (b * m ^ k) p.maxBackoff := by
+    intro k
+    induction k with
+    | zero => intro b hb; simp only [backoffAt, Nat.pow_zero, Nat.mul_one]; omega
+    | succ k ih =>
+      intro b hb
+      have hP : 1 ≤ m ^ k := Nat.one_le_pow _ _ hm
+      have hstep : nextBackoff (fun b => some (m * b)) p b = min (m * b) p.maxBackoff := rfl
+      have hmul : b * m ^ (k + 1) = m * b * m ^ k := by
+        rw [Nat.pow_succ, Nat.mul_comm (m ^ k) m, ← Nat.mul_assoc, Nat.mul_comm b m]
+      rw [backoffAt, hstep, ih _ (Nat.min_le_right _ _), hmul]
+      by_cases h : m * b ≤ p.maxBackoff
+      · rw [Nat.min_eq_left h]
+      · have h1 : p.maxBackoff ≤ p.maxBackoff * m ^ k := Nat.le_mul_of_pos_right _ hP
+        have h2 : m * b ≤ m * b * m ^ k := Nat.le_mul_of_pos_right _ hP
+        rw [Nat.min_eq_right (by omega : p.maxBackoff ≤ m * b)]
+        omega
+  exact key k _ (Nat.min_le_right _ _)
+
+/-- The default policy under exact arithmetic: 100 ms, 200 ms, 400 ms, … cut at 10 s. -/
+theorem default_backoff_doubles (k : Nat) :
+    backoffSeq (fun b => some (2 * b)) defaultPolicy k = min (100000000 * 2 ^ k) 10000000000 := by
+  have := backoff_exponential defaultPolicy 2 (by decide) k
+  simpa [defaultPolicy] using this
+
+/-! ### extension 3: `from_env` on the parsers as the Rust library writes them -/
+
+/-- `from_env` with `from_str_radix`'s step-wise `checked_mul`/`checked_add` loop and the f64
+grammar of `dec2flt` inside the model (`fromEnvC`) is the `fromEnv` of the theorems above, with
+the f64 parser instantiated by "accepted by the grammar, then the value". -/
+theorem fromEnv_library_parsers {μ : Type} (valueOf : List Char → μ) (two : μ) (e : EnvIn) :
+    fromEnvC valueOf two e = fromEnvG valueOf two e := by
+  unfold fromEnvC fromEnvG fromEnv
+  have h32 : parseUnsignedChecked (2 ^ 32) = parseUnsigned (2 ^ 32) :=
+    funext fun s => parseUnsignedChecked_eq _ (by decide) s
+  have h64 : parseUnsignedChecked (2 ^ 64) = parseUnsigned (2 ^ 64) :=
+    funext fun s => parseUnsignedChecked_eq _ (by decide) s
+  rw [h32, h64]
+
+/-- `fromEnv_ranges` on the library-level parsers: total, and every field in the range of its
+Rust type. -/
+theorem fromEnvC_ranges {μ : Type} (valueOf : List Char → μ) (two : μ) (e : EnvIn) :
+    (fromEnvC valueOf two e).1.maxAttempts < 2 ^ 32 ∧
+    (∃ ms, ms < 2 ^ 64 ∧ (fromEnvC valueOf two e).1.initialBackoff = ms * 1000000) ∧
+    (∃ s, s < 2 ^ 64 ∧ (fromEnvC valueOf two e).1.maxBackoff = s * 1000000000) := by
+  rw [fromEnv_library_parsers]
+  exact fromEnv_ranges _ two e
+
+/-- The multiplier read from the environment: the value of the string when `dec2flt` accepts it,
+otherwise (unset, not Unicode, rejected) the default — nothing else can happen. -/
+theorem fromEnvC_multiplier {μ : Type} (valueOf : List Char → μ) (two : μ) (e : EnvIn) :
+    (fromEnvC valueOf two e).2 =
+      match e.multiplier with
+      | some s => if f64Accepts s then valueOf s else two
+      | none => two := by
+  unfold fromEnvC
+  cases e.multiplier with
+  | none => rfl
+  | some s => simp only [Option.bind_some]; split <;> rfl
+
+/-- (test, by evaluation) hostile multipliers are spellable: `NaN`, `-1`, `inf`, `-inf`, `1e999`,
+`-0`, `.5`, `5.`, `+2` are accepted; `1e`, `.`, `0x2`, ` 2`, the empty string and `+` are not. -/
+theorem f64_grammar_samples :
+    (['N','a','N'] :: ['-','1'] :: ['i','n','f'] :: ['-','I','N','F'] :: ['1','e','9','9','9'] ::
+      ['-','0'] :: ['.','5'] :: ['5','.'] :: ['+','2'] :: ['I','n','f','i','n','i','t','y'] :: []).all f64Accepts = true ∧
+    (['1','e'] :: ['.'] :: ['0','x','2'] :: [' ','2'] :: [] :: ['+'] :: ['e','5'] :: ['1','e','+'] ::
+      ['n','a','n','0'] :: ['i','n','f','i','n','i','t'] :: []).all (fun s => !f64Accepts s) = true := by
+  decide
+
+/-! ### extension 4: the observer — tokio's millisecond timer and its 30-year clamp -/
+
+/-- The check compares delays through `view` (capped at 30 years, whole ms rounded up). That is
+sound for the way tokio arms the timer: for every duration `d` — below the clamp, above it, or so
+large that `Instant::now() + d` overflows and tokio substitutes now + 30 years — the view of what
+the paused clock shows equals the view of `d` itself, provided the clock can still be advanced by
+30 years (`farFuture ≤ room`, else `far_future()` itself would overflow). No false disagreement,
+and below the clamp nothing is hidden (`view_exact`). -/
+theorem observed_delay_view_sound (room d : Nat) (hroom : farFuture ≤ room) :
+    view (observed room d) = view d ∧
+    (d ≤ farFuture → view d = (d + 999999) / 1000000) :=
+  ⟨view_observed room d hroom, view_exact d⟩
+
+/-- What the clamp hides (stated, not hidden): all delays of 30 years and more have the same
+view. -/
+theorem delays_above_clamp_indistinguishable (d : Nat) (h : farFuture ≤ d) : view d = view farFuture :=
+  view_above d h
+
 /-! ### non-vacuity: the hypotheses are met by concrete, non-trivial instances -/
 
 example : ∀ o ∈ [Outcome.err .timeout, .err (.rateLimited (some 5))], Retryable o := by
@@ -327,5 +466,13 @@ example : execute (Arith.fixed fun b => some (2 * b)) ⟨3, 100000000, 100000000
   decide
 -- a status outside 2xx
 example : ¬ (200 ≤ 404 ∧ 404 < 300) := by decide
+-- an integer multiplier ≥ 1, and a run where the exponential sequence is visible and then cut
+example : backoffSeq (fun b => some (2 * b)) ⟨5, 100, 1000, false⟩ 3 = 800 ∧
+    backoffSeq (fun b => some (2 * b)) ⟨5, 100, 1000, false⟩ 4 = 1000 := by decide
+-- a clock with room for the clamp; a duration that does not fit it is seen as 30 years
+example : farFuture ≤ 2 * farFuture ∧ observed (2 * farFuture) (3 * farFuture) = farFuture := by decide
+-- a jitter draw inside the source's range (1/4), as required by `jitter_law_exact`
+example : Cascette.Generated.RetrySrc.jitter_lo.1 * 4 ≤ 1 * Cascette.Generated.RetrySrc.jitter_lo.2 ∧
+    1 * Cascette.Generated.RetrySrc.jitter_hi.2 < Cascette.Generated.RetrySrc.jitter_hi.1 * 4 := by decide
 
 end Cascette.Props.C14
